@@ -8,7 +8,7 @@ VERIF = os.path.dirname(os.path.dirname(os.path.abspath(__file__)))
 COQ = os.path.join(VERIF, "coq")
 WORK = os.path.join(VERIF, "work")
 REPO = "/repo"
-HARNESS_BIN = os.path.join(WORK, "target", "debug", "l21h")
+HARNESS_DIR = os.path.join(WORK, "target", "debug")
 GUARD = "layout21_verif"
 NCPU = os.cpu_count() or 4
 
@@ -162,10 +162,13 @@ def print_assumptions(prop_module, names, rundir):
     return res, out
 
 # ---------------------------------------------------------------- harness
-def build_harness(timeout=1800):
+def build_harness(bins, timeout=1800):
+    """Builds the harness binaries `bins` (e.g. ["c15"]) against /repo's working tree, hooks enabled."""
     with Lock("cargo"):
-        lock_src = os.path.join(REPO, "Cargo.lock")
-        rc, out = sh(["cargo", "build", "--offline"], cwd=os.path.join(VERIF, "harness"),
+        cmd = ["cargo", "build", "--offline"]
+        for b in bins:
+            cmd += ["--bin", b]
+        rc, out = sh(cmd, cwd=os.path.join(VERIF, "harness"),
                      env={"RUSTFLAGS": "--cfg %s" % GUARD, "CARGO_TARGET_DIR": os.path.join(WORK, "target")}, timeout=timeout)
         return rc == 0, out
 
@@ -180,7 +183,7 @@ def harness(subcmd, cases, timeout=1200, chunk=None):
         batch = cases[i:] if chunk is None else cases[i:i + chunk]
         inp = "".join(json.dumps(c) + "\n" for c in batch)
         try:
-            p = subprocess.run([HARNESS_BIN, subcmd], input=inp, stdout=subprocess.PIPE, stderr=subprocess.PIPE,
+            p = subprocess.run([os.path.join(HARNESS_DIR, subcmd)], input=inp, stdout=subprocess.PIPE, stderr=subprocess.PIPE,
                                text=True, timeout=timeout)
             lines = [l for l in p.stdout.split("\n") if l.strip()]
             rc = p.returncode
